@@ -155,6 +155,25 @@ func (e *env) endPredicates() {
 	out.Stat("best_chain_bodies_checked", top)
 }
 
+// expiredIndep: the expiry rule written out from the raw Expire field (types/tx.go isExpire), so
+// that the predicate does not depend on the function under test: 0 never; <= ExpireBound: a
+// height, expired when Expire <= height; > TxHeightFlag: txHeight = Expire - flag, packable only
+// at heights txHeight-low .. txHeight+high; otherwise a time, expired when Expire <= block time.
+func (e *env) expiredIndep(expire, height, blocktime int64) bool {
+	const expireBound = 1000000000
+	const txHeightFlag = int64(1) << 62
+	switch {
+	case expire == 0:
+		return false
+	case expire <= expireBound:
+		return expire <= height
+	case expire > txHeightFlag:
+		th := expire - txHeightFlag
+		return !(th-e.lo <= height && height <= th+e.hi)
+	}
+	return expire <= blocktime
+}
+
 // scanChain: C28 — every transaction of every block of the best chain is unique on the chain,
 // unexpired at the block's height and time, correctly signed, and passes fee / chain-id checks.
 func (e *env) scanChain() {
@@ -186,10 +205,14 @@ func (e *env) scanChain() {
 				}
 				out.Pred(Prop+"|PreExecBlock.EventCheckTxsExist|tx-with-invalid-signature-on-best-chain|"+held, where+acc+" "+e.detail())
 			}
-			if tx.IsExpire(cfg, h, b.BlockTime) {
+			if e.expiredIndep(tx.Expire, h, b.BlockTime) || tx.IsExpire(cfg, h, b.BlockTime) {
 				out.Pred(Prop+"|checkTx|expired-tx-on-best-chain", where+" "+e.detail())
 			}
-			if err := tx.Check(cfg, h, cfg.GetMinTxFeeRate(), cfg.GetMaxTxFee(h)); err != nil {
+			if tx.ChainID != cfg.GetChainID() {
+				out.Pred(Prop+"|checkTx|fee-or-chainid-invalid-tx-on-best-chain", where+" err=chainid "+e.detail())
+			} else if minFee := int64(types.Size(tx)/1000+1) * cfg.GetMinTxFeeRate(); tx.Fee < minFee {
+				out.Pred(Prop+"|checkTx|fee-or-chainid-invalid-tx-on-best-chain", where+" err=fee-below-minimum "+e.detail())
+			} else if err := tx.Check(cfg, h, cfg.GetMinTxFeeRate(), cfg.GetMaxTxFee(h)); err != nil {
 				out.Pred(Prop+"|checkTx|fee-or-chainid-invalid-tx-on-best-chain", where+" err="+err.Error()+" "+e.detail())
 			}
 			if prev, dup := seen[string(hash)]; dup {
@@ -207,4 +230,26 @@ func (e *env) scanChain() {
 	}
 	out.Stat("chain_scans", 1)
 	out.Stat("chain_blocks_scanned", top)
+}
+
+// scanProduced: C28 for a block the node produced itself on its tip (signatures are the mempool's
+// business on this path): no transaction twice in the block or already on the best chain, none
+// expired at the block's height and time, fee and chain id fine.
+func (e *env) scanProduced(b *types.Block) {
+	cfg := e.cfg
+	seen := map[string]bool{}
+	for i, tx := range b.Txs {
+		hash := tx.Hash()
+		where := fmt.Sprintf("produced-height=%d index=%d tag=%d", b.Height, i, e.hashTag[string(hash)])
+		if seen[string(hash)] || e.node.TxHeight(hash) >= 0 {
+			out.Pred(Prop+"|CheckTxDup|producer-kept-a-duplicate-tx", where+" "+e.detail())
+		}
+		seen[string(hash)] = true
+		if e.expiredIndep(tx.Expire, b.Height, b.BlockTime) {
+			out.Pred(Prop+"|checkTx|producer-kept-an-expired-tx", where+" "+e.detail())
+		}
+		if tx.ChainID != cfg.GetChainID() || tx.Fee < int64(types.Size(tx)/1000+1)*cfg.GetMinTxFeeRate() {
+			out.Pred(Prop+"|checkTx|producer-kept-a-fee-or-chainid-invalid-tx", where+" "+e.detail())
+		}
+	}
 }
